@@ -13,8 +13,8 @@
 #include "mx_surgeon.h"
 #include "mx_scn.h"
 
-enum { EV_ALERT_IN = 0, EV_CORRUPT, EV_OVERSIZE, EV_ILLEGAL, EV_BADVERSION, EV_PEER_ALERT, EV_PEER_CLOSE, EV_N };
-static const char *evname[] = { "inbound-alert", "corrupt-record", "oversize-record", "illegal-message", "bad-record-version", "peer-fatal-alert", "peer-close-notify" };
+enum { EV_ALERT_IN = 0, EV_CORRUPT, EV_OVERSIZE, EV_ILLEGAL, EV_BADVERSION, EV_PEER_ALERT, EV_PEER_CLOSE, EV_AUTH_HS, EV_AUTH_ALERT, EV_AUTH_TYPE, EV_N };
+static const char *evname[] = { "inbound-alert", "corrupt-record", "oversize-record", "illegal-message", "bad-record-version", "peer-fatal-alert", "peer-close-notify", "authentic-illegal-handshake-message", "authentic-alert", "authentic-bad-content-type" };
 enum { K_NEXT = 0, K_ORIGINAL, K_OLD, K_GARBAGE, K_HELLO, K_ENCODE, K_PUMP, K_DRAIN, K_N };
 static const char *kname[] = { "next-honest-records", "original-of-corrupted", "older-record-replay", "garbage", "fresh-clienthello", "app-encode", "honest-pump", "drain-loops" };
 
@@ -42,6 +42,15 @@ static void build_events(void)
     events[nev++] = (ev_t) { EV_BADVERSION, 2, 0 };
     events[nev++] = (ev_t) { EV_PEER_ALERT, 0, 0 };
     events[nev++] = (ev_t) { EV_PEER_CLOSE, 0, 0 };
+    /* records sealed with the honest peer's own keys (key-holding peer): authentic but illegal */
+    static const int hst[] = { 0, 1, 2, 4, 11, 12, 13, 14, 15, 16, 20, 24, 99 };
+    for (int i = 0; i < 13; i++) events[nev++] = (ev_t) { EV_AUTH_HS, hst[i], 0 };
+    static const int ad_q[] = { 10, 20, 40, 47, 80, 90 }; static const int ad_t[] = { 10, 20, 21, 22, 30, 40, 42, 43, 44, 45, 46, 47, 48, 49, 50, 51, 60, 70, 71, 80, 86, 90, 100, 109, 110, 112, 116, 120 };
+    const int *ad = vf_thorough ? ad_t : ad_q; int nad = vf_thorough ? 28 : 6;
+    for (int i = 0; i < nad; i++) events[nev++] = (ev_t) { EV_AUTH_ALERT, 2, ad[i] };
+    events[nev++] = (ev_t) { EV_AUTH_ALERT, 1, 0 };
+    events[nev++] = (ev_t) { EV_AUTH_TYPE, 24, 0 };
+    events[nev++] = (ev_t) { EV_AUTH_TYPE, 25, 0 };
 }
 
 static struct { const mx_scn *scn; char desc[300]; const ev_t *ev; int kont; int cut; int appAtEvent; int afterEvent; } M;
@@ -108,6 +117,16 @@ static void child_run(void *a_)
         if (!have_next) { vf_stat("event_not_applicable", 1); return; }
         memcpy(orig, pend, nextlen); norig = nextlen; memcpy(buf, pend, nextlen); n = nextlen; consumed = nextlen;
         buf[1] = a->ev->arg; buf[2] = 0; break;
+    case EV_AUTH_HS: case EV_AUTH_ALERT: case EV_AUTH_TYPE: {
+        /* only at flight boundaries (nothing in transit), so that the authentic record is the next in sequence */
+        if (npend > 0 || T->dead) { vf_stat("event_not_applicable", 1); return; }
+        unsigned char body[32]; int bl, ty;
+        if (a->ev->ev == EV_AUTH_HS) { memset(body, 0, sizeof body); body[0] = (unsigned char) a->ev->arg; bl = dtls ? 12 : 4; ty = 22; if (dtls) { body[5] = (unsigned char) (P->ssl->msn); } }
+        else if (a->ev->ev == EV_AUTH_ALERT) { body[0] = a->ev->arg; body[1] = a->ev->arg2; bl = 2; ty = 21; }
+        else { memcpy(body, "odd-content-type", 16); bl = 16; ty = a->ev->arg; }
+        n = mx_seal_as(P, ty, body, bl, buf);
+        if (n <= 0) { vf_stat("event_not_applicable", 1); return; }
+        break; }
     case EV_PEER_ALERT: case EV_PEER_CLOSE: {
         if (!est) { vf_stat("event_not_applicable", 1); return; }
         if (a->ev->ev == EV_PEER_CLOSE) { mx_actor = P->id; P->wantTake = 1; matrixSslEncodeClosureAlert(P->ssl); }
@@ -132,6 +151,19 @@ static void child_run(void *a_)
     if (alertBytes > 0 && !(ob[0] == 21 || (k->cfg.ver == MX_TLS13 && ob[0] == 23 && alertBytes <= 5 + 2 + 1 + 16 + 64)))
         if (recognised) report("non-alert-output-at-error", T, "event produced %d output bytes starting with record type %d", alertBytes, ob[0]);
     free(ob);
+    if (!recognised && !dtls) {
+        /* by construction these are protocol errors in every state: nobody may send them to this role */
+        int must = 0;
+        if (a->ev->ev == EV_AUTH_HS) {
+            int t = a->ev->arg;
+            if (t == 99) must = 1;
+            if (T->role == MX_SERVER && (t == 0 || t == 2 || t == 12 || t == 13 || t == 14 || (t == 4 && k->cfg.ver != MX_TLS13) || (t == 4 && k->cfg.ver == MX_TLS13))) must = 1;
+            if (T->role == MX_CLIENT && (t == 1 || t == 16 || t == 15)) must = 1;
+        }
+        if (a->ev->ev == EV_AUTH_TYPE) must = 1;
+        if (a->ev->ev == EV_AUTH_ALERT && a->ev->arg == 2 && T->nAlertIn == alertsBefore) must = 1;
+        if (must) report("protocol-error-not-fatal", T, "an authentic but illegal record (event arg %d/%d) was not treated as a fatal error: rc=%d alertBytes=%d", a->ev->arg, a->ev->arg2, rcEvent, alertBytes);
+    }
     if (!recognised) { vf_stat("event_not_recognised_as_error", 1); vf_statf(1, "unrecognised_%s_%s", evname[a->ev->ev], dtls ? "dtls" : "tls"); return; }
     vf_stat("events_recognised", 1);
     vf_distinct("%s|%s|ca%d|r%d|%s|cut%d|st%d|%s:%d:%d|%s", mx_vername[k->cfg.ver], M.scn->name, k->cfg.clientAuth, M.scn->resumed, a->target ? "S" : "C", a->cut, T->ssl->hsState, evname[a->ev->ev], a->ev->arg, a->ev->arg2, kname[a->kont]);
@@ -180,6 +212,14 @@ static void at_cut(mx_walk *w, mx_conn *k, int cut)
         /* not every continuation for every alert description: alerts share the code path; rotate */
         if (events[e].ev == EV_ALERT_IN && !vf_thorough && ((e + c + cut) % 3)) continue;
         if (c == K_ORIGINAL && events[e].ev != EV_CORRUPT && events[e].ev != EV_BADVERSION) continue;
+        if (events[e].ev >= EV_AUTH_HS) {
+            /* authentic records need a peer that is already encrypting and an empty wire (checked here, before forking) */
+            mx_ep *P = w->target == MX_SERVER ? &k->c : &k->s; int d = w->target == MX_SERVER ? 0 : 1;
+            if (!(P->ssl->flags & SSL_FLAGS_WRITE_SECURE) || P->ssl->outlen > 0 || k->qlen[d] > k->qoff[d]) continue;
+            if (!vf_thorough && !(c == K_NEXT || c == K_ENCODE || c == K_PUMP || c == K_GARBAGE)) continue;
+        }
+        if ((events[e].ev == EV_PEER_ALERT || events[e].ev == EV_PEER_CLOSE) && !mx_conn_established(k)) continue;
+        if ((events[e].ev == EV_CORRUPT || events[e].ev == EV_BADVERSION)) { int d = w->target == MX_SERVER ? 0 : 1; mx_ep *P = w->target == MX_SERVER ? &k->c : &k->s; if (k->qlen[d] <= k->qoff[d] && P->ssl->outlen == 0 && !mx_conn_established(k)) continue; }
         long idx = g_case_idx++;
         if (!vf_mine(idx)) continue;
         child_arg a = { k, w->target, cut, &events[e], c };
